@@ -28,6 +28,11 @@ claimed = {
    note="Trusted: grpc metadata API, dubbo Invocation/Invoker, handler/invoker callbacks (arbitrary results, calls recorded), context.WithValue/Value modelled as a functional map, SendSyncRequest boundary as in C04. The gin middleware is not under contract (gin.Context internals); listed as unverified. The induction over nesting depth is a pencil step over the per-scope frame contract.",
    ref="DESIGN.md §3 C07",
    technique="contract-based deductive verification: VCs from go/ssa by symbolic execution, mode table as postconditions, frame postcondition with assume-guarantee on the callback, discharged by cvc5/z3"),
+ "C14": dict(
+   text="Deductive proof (sequential, per call) over the real SSA of sendAsync, NotifyRpcMessageResponse, syncCallback, clientOnResponseProcessor.Process and NewMessageFuture with the futures table as a map: a request's future is registered under its own id before the callback waits and only if somebody waits; a failed write removes it; a response completes only the future stored under its own id and removes only that entry - every other key of the table is unchanged (whole-map frame with a skolem key); a response without a future changes nothing and returns; the timeout arm removes the caller's own future and returns an error; completing a future cannot block (send obligation against the channel's ghost capacity/length; capacity >= 1 proved at construction).",
+   note="Interleavings are NOT explored: these are per-call contracts relying on sync.Map atomicity; the registry invariant 'every stored future was made by NewMessageFuture and is completed at most once while stored' is assumed at NotifyRpcMessageResponse/Process and justified by construction (sendAsync is the only Store site; Process removes after notifying). The merged-message branch of Process is cut with invariant true and only its frame is claimed. Id freshness relies on the atomic counter (trusted). Trusted: getty.Session, the timer wheel, callbacks.",
+   ref="DESIGN.md §3 C14",
+   technique="contract-based deductive verification: VCs from go/ssa by symbolic execution, sync.Map as a map with whole-map frame postconditions, ghost channel capacity/length, discharged by cvc5/z3"),
 }
 na = {
  "C18": "relates generated SQL text executed by MySQL to the rows another SQL text changed; needs a formal semantics of MySQL DML and of the arana-db parser AST, which no contract within reach of a self-written VC generator can express (DESIGN.md §4)",
